@@ -23,6 +23,7 @@ import (
 	"github.com/bluenviron/gortsplib/v5/pkg/base"
 	"github.com/bluenviron/gortsplib/v5/pkg/description"
 	"github.com/bluenviron/gortsplib/v5/pkg/format"
+	"github.com/pion/rtcp"
 	"github.com/pion/rtp"
 )
 
@@ -63,6 +64,8 @@ type Handler struct {
 
 	// OnRecvRTP is invoked for packets received from a recording session
 	OnRecvRTP func(sess int, mediaIdx int, forma format.Format, pkt *rtp.Packet)
+	// OnRecvRTCP is invoked for RTCP packets received from any playing or recording session
+	OnRecvRTCP func(sess int)
 	// Forward received packets into the record stream
 	Forward bool
 	// OnForwardErr is told when the stream refuses a forwarded packet (the error the writer sees)
@@ -227,11 +230,23 @@ func (h *Handler) OnSetup(ctx *gortsplib.ServerHandlerOnSetupCtx) (*base.Respons
 
 func (h *Handler) OnPlay(ctx *gortsplib.ServerHandlerOnPlayCtx) (*base.Response, error) {
 	h.rec("play", ctx.Conn, ctx.Session, ctx.Path, ctx.Query, len(ctx.Session.Medias()), nil)
+	h.hookRTCP(ctx.Session)
 	return &base.Response{StatusCode: base.StatusOK}, nil
+}
+
+func (h *Handler) hookRTCP(sess *gortsplib.ServerSession) {
+	if h.OnRecvRTCP == nil {
+		return
+	}
+	h.mu.Lock()
+	sid := h.sessID(sess)
+	h.mu.Unlock()
+	sess.OnPacketRTCPAny(func(*description.Media, rtcp.Packet) { h.OnRecvRTCP(sid) })
 }
 
 func (h *Handler) OnRecord(ctx *gortsplib.ServerHandlerOnRecordCtx) (*base.Response, error) {
 	h.rec("record", ctx.Conn, ctx.Session, ctx.Path, ctx.Query, len(ctx.Session.Medias()), nil)
+	h.hookRTCP(ctx.Session)
 	sess := ctx.Session
 	h.mu.Lock()
 	sid := h.sessID(sess)
